@@ -43,7 +43,7 @@ def shards(tier, seed):
             'frames': 18 if q else 40, 'values': 8 if q else 255,
             'max_positions': 160 if q else 400,
             'rand': 300 if q else 6000,
-            'deep': ([32, 64] if i == 1 else []) if q
+            'deep': ([32, 64, 480] if i == 1 else []) if q
             else ([32, 64, 200, 480] if i in (1, 2) else []),
             'deep_fault': ([8, 16, 24, 40] if i == 3 else []) if q
             else ([4, 8, 12, 16, 24, 32, 40, 60] if i in (5, 6) else []),
@@ -82,7 +82,11 @@ def budgets(data):
     d = min(500, data.count(b'A') + data.count(b'F'))
     return {'calls': 8 * n + 256, 'jumps': 8 * n + 256,
             'copied': 4 * n * n + 4096 * n,
-            'mem': (1 << 20) + (2 * d + 64) * n}
+            # memory proportional to the input ...
+            'mem': (1 << 20) + 64 * n,
+            # ... and the envelope of the known finding "every nesting level
+            # keeps its own copies of the remaining payload alive"
+            'mem_depth': (1 << 20) + (2 * d + 64) * n}
 
 
 def _leak_case(case, rec):
@@ -192,10 +196,21 @@ def run_case(case, rec):
         if n >= 64:
             rec.maxi('max_traced_bytes_per_byte', round(peak / n, 2))
         rec.maxi('max_traced_peak', peak)
-        if peak > b['mem']:
+        if peak > b['mem_depth']:
             rec.violation('memory-budget', 'decoding %d bytes allocated a '
                           'traced peak of %d bytes (budget %d)'
-                          % (n, peak, b['mem']), wit)
+                          % (n, peak, b['mem_depth']), wit)
+            return
+        if peak > b['mem']:
+            rec.maxi('max_traced_bytes_per_byte_nested', round(peak / n, 1))
+            rec.violation('memory-grows-with-nesting-depth',
+                          'decoding %d bytes nested about %d containers deep '
+                          'allocated a traced peak of %d bytes = %.0f x the '
+                          'input (proportional budget %d): every nesting '
+                          'level keeps its own copies of the remaining '
+                          'payload alive' % (n, min(500, data.count(b'A') +
+                                                    data.count(b'F')), peak,
+                                             peak / n, b['mem']), wit)
             return
     if rec.evaluations % 4001 == 0:
         rec.sample({'label': label, 'len': n, 'data_hex':
